@@ -81,6 +81,7 @@ def menu_for(kind, tier, full_values=True):
         m.append(("ct", f"ct={ct[1]!r}:{ct[0]}", lambda s, ct=ct: s.__setitem__("ct", solspec.enc(ct[1], ct[0]))))
     for pn in ("x", "Intel(R) Core(TM) i7-8550U CPU @ 1.80GHz"):
         m.append(("proc", f"proc={pn[:5]}", lambda s, pn=pn: s.__setitem__("proc", pn)))
+    m.append(("relabel", "planning-problem-ids-assigned-after-construction", lambda s: s.__setitem__("relabel", True)))
     m.append(("date", "date=None", lambda s: s.__setitem__("date", None)))
     m.append(("date", "date=microseconds", lambda s: s.__setitem__("date", [2019, 12, 31, 23, 59, 59, 999999])))
     m.append(("date", "date=midnight", lambda s: s.__setitem__("date", [2020, 2, 29, 0, 0, 0, 0])))
@@ -153,6 +154,12 @@ def check(spec, res, labels=()):
         res.outcomes[f"rejected-by-constructor:{type(e).__name__}"] += 1
         res.guarded += 1
         return
+    if spec.get("relabel"):
+        # planning-problem ids assigned through the public setter after the solution was built (spec["pps"][i]["id"] is the NEW id)
+        for pps_, p_ in zip(sol.planning_problem_solutions, spec["pps"]):
+            pps_.planning_problem_id = p_["id"]
+        if sol.planning_problem_ids != [p_["id"] for p_ in spec["pps"]]:
+            res.violation("C14|planning_problem_ids|after-relabel|solution-reports-old-ids", f"{sol.planning_problem_ids} != {[p_['id'] for p_ in spec['pps']]}", case)
     try:
         text = CommonRoadSolutionWriter(sol).dump()
     except Exception as e:
